@@ -119,6 +119,13 @@ func (j *udpJob) transition(from, to uint8) {
 }
 
 // setRemote rewrites the cached classic view in place.
+// udpSourcePortUsable refuses datagrams that claim source port 0. No reply
+// can be addressed to port 0, so such a query can only cost work; and an
+// address with port 0 is how an internal sub-query's writer is recognised
+// (127.0.0.255:0), which a datagram from the network must never be able to
+// imitate: it would skip the access list, the rate limiter and the views.
+func udpSourcePortUsable(port uint16) bool { return port != 0 }
+
 func (j *udpJob) setRemote(ap netip.AddrPort) {
 	j.raddr = ap
 	addr := ap.Addr()
@@ -471,6 +478,11 @@ func (e *udpEngine) reader(idx int, pc *net.UDPConn) {
 			// must not reach the parser.
 			j.release(udpJobReading)
 			udpDropTrunc.Inc()
+			continue
+		}
+		if !udpSourcePortUsable(raddr.Port()) {
+			j.release(udpJobReading)
+			udpDropError.Inc()
 			continue
 		}
 		j.rxLen = n
